@@ -19,6 +19,7 @@ RULE = ("Hypothesis: bar-grid pieces of 1-6 planned bars with 1-4 tracks; meta_t
         "line is reproduced exactly (on); inputs unchanged in both views. Non-trivial: >= 2 bars and (signature change, key "
         "change, cut note or unequal track lengths). Distinct by case digest.")
 RULE = RULE + " Round h: the inputs were split into bars before with the other re-quantisation setting."
+RULE = RULE + " Round j: restated keys on later bar lines."
 ASSUMPTIONS = ["signature/key changes fall on bar boundaries of the meta track (the statement's precondition)",
                "no event sits exactly on the final tick of a track that ends on a bar line (would start one more, empty, bar)"]
 TIERS = {"quick": dict(shards=8, examples=1500), "thorough": dict(size=2, shards=16, examples=15000)}
@@ -47,7 +48,9 @@ def _case(draw, size=1):
             cur = new
             sig_events.append(["ts", t, cur[0], cur[1]])
         if b < meta_bars and draw(st.integers(0, 3)) == 0:
-            key_events.append(["ks", t, draw(st.sampled_from(gens.KEYS))])
+            # a new key, or (a third of the time) the key already in force written again - hand-built tracks restate it
+            restate = key_events and draw(st.integers(0, 2)) == 0
+            key_events.append(["ks", t, key_events[-1][2] if restate else draw(st.sampled_from(gens.KEYS))])
         length = 96 * cur[0] // cur[1]
         bars.append((t, length))
         t += length
